@@ -58,7 +58,7 @@ def check(run, F, tier):
                        "state machine is explored exactly over its finite multiplier domain. Equality of event sequences over all "
                        "chunkings of a stream is NOT decided.")
     ms = conn.gc_methods(F)
-    r1 = run.rule("C09-R1", "recv: one feed per call, every build result handled", floor=3)
+    r1 = run.rule("C09-R1", "recv: one feed per call, every build result handled, the cursor is advanced by feed only", floor=4)
     res = conn.paths(F, ms["recv"]["path"], tag="recv-packet")
     seen = {}
     for p in res["paths"]:
@@ -76,6 +76,37 @@ def check(run, F, tier):
         ev = p.events() or ()
         w = ["<process_recv_packet>" if (isinstance(e, tuple) and e and e[0] == "sub") else conn.ev_name(e) for e in ev]
         seen.setdefault(v, set()).add(tuple(x for x in w if not x.startswith("RequestTimerCancel")))
+    # the byte cursor belongs to the framer: recv() itself never moves it (skipping or rewinding input on any result would
+    # make the outcome depend on how the stream was chunked)
+    recv_fn = ms["recv"]
+    cur_arg = [i for i in range(1, recv_fn["argc"] + 1) if "Cursor" in recv_fn["locals"][i]]
+    movers = []
+    if not cur_arg:
+        r1.violation("cursor-arg", "recv() has no Cursor parameter (anchor lost)")
+    else:
+        cname = recv_fn.get("names", {}).get(str(cur_arg[0]), "arg%d" % cur_arg[0])
+        for b in recv_fn["blocks"]:
+            t = b["term"]
+            if t["k"] != "call" or "fn" not in t["func"].get("const", {}):
+                continue
+            fi = t["func"]["const"]["fn"]
+            cp = (fi.get("res") or {}).get("path", fi["path"])
+            if cp == PB + "::feed":
+                continue
+            callee = F.fns.get(cp)
+            for ai, a in enumerate(t["args"]):
+                pl = a.get("move") or a.get("copy")
+                if pl is None:
+                    continue
+                lty = recv_fn["locals"][pl["l"]]
+                # a `&mut Cursor` (the parameter itself or a reborrow of it) handed to anything but feed
+                if lty.startswith("&mut") and "Cursor" in lty:
+                    movers.append((cp, t.get("line")))
+        if movers:
+            r1.violation("cursor-moved-by-recv", "recv() passes the input cursor mutably to %s: only PacketBuilder::feed may advance it" % sorted({m[0].split("::")[-1] for m in movers}),
+                         site="%s:%s" % (recv_fn["file"], movers[0][1]))
+        else:
+            r1.ok("cursor-only-advanced-by-feed", cname)
     want = {"Complete": {("<process_recv_packet>",)}, "Incomplete": {()}, "Error": {("RequestClose", "NotifyError(?)")}}
     for v, ws in want.items():
         if seen.get(v) == ws:
